@@ -1235,6 +1235,10 @@ ws_stop(void *arg)
 			nni_mtx_lock(&d->mtx);
 			nni_list_node_remove(&ws->node);
 			ws->dialer = NULL;
+			if (nni_list_empty(&d->wspend)) {
+				// ws_dialer_stop may be waiting for this.
+				nni_cv_wake(&d->cv);
+			}
 			nni_mtx_unlock(&d->mtx);
 		}
 	}
